@@ -648,7 +648,7 @@ func (c *sentinelClient) listWatch(cc conn) (master string, replica string, sent
 				if m[0] == "master" && m[1] == c.sOpt.Sentinel.MasterSet {
 					c.switchTargetRetry(net.JoinHostPort(m[2], m[3]), true)
 				} else if (c.replica || c.rOpt != nil) && m[0] == "slave" && m[5] == c.sOpt.Sentinel.MasterSet {
-					c.refreshRetry()
+					go c.refreshRetry() // not inline: _refresh talks to this very connection, whose messages this callback must keep draining
 				}
 			// note that in case of failover, every slave in the setup
 			// will send +slave event individually.
@@ -656,7 +656,7 @@ func (c *sentinelClient) listWatch(cc conn) (master string, replica string, sent
 				m := strings.SplitN(event.Message, " ", 7)
 				if (c.replica || c.rOpt != nil) && m[0] == "slave" && m[5] == c.sOpt.Sentinel.MasterSet {
 					// call refresh to randomly choose a new slave
-					c.refreshRetry()
+					go c.refreshRetry() // not inline, see above
 				}
 			}
 		}); err != nil && atomic.LoadUint32(&c.stop) == 0 {
